@@ -28,8 +28,8 @@ from . import _x01_winreplay as WR
 PROPS = {
     "X01": dict(level="model_checking",
                 technique="TLC exhaustive on four bounded models - MC_NeededData (all 2^12 flag assignments + get_parameters key sets), MC_WinRead (token-level .win "
-                          "files x styles through the reader), MC_WinObj (WIN dictionary state machine: set / del / update / write+re-read, all action sequences up "
-                          "to the bound), MC_UtilTables (function tables of utility.py) - with the documented laws as invariants and 8 must-fail variants; replay "
+                          "files x styles through the reader), MC_WinObj (WIN dictionary state machine: set / del / update / to_npz+from_npz / write+re-read, all action sequences up "
+                          "to the bound), MC_UtilTables (function tables of utility.py) - with the documented laws as invariants and must-fail variants (4 in the quick tier, 8 in the thorough tier); replay "
                           "of every finished TLC state / behaviour on the real NeededData, WIN (real files in a scratch directory) and utility functions; TLC "
                           "validation of seeded random recorded calls (NeededDataRec, WinFileRec, UtilTablesRec)",
                 text="(a) NeededData.__init__ / need_any / not_in_list / get_parameters are transcribed as a decision table; TLC checks on all 4096 flag "
@@ -41,7 +41,8 @@ PROPS = {
                      "radius); TLC checks that reading does not depend on the style (case of keywords / begin / end / units, separator, comments, order), "
                      "parameters are found under their lower-case keyword, bohr/ang units of cell and atoms_cart are respected, k-points are the first three "
                      "columns and mp_grid their mesh (a contradicting mp_grid or off-mesh points are refused), and on the object state machine: get-after-"
-                     "set, del, update, the written file is well formed and names every non-None entry once, write then read gives the dictionary back, "
+                     "set, del, update, to_npz/from_npz keeps the dictionary (and the loaded object can be written), the written file is well formed and names "
+                     "every non-None entry once, write then read gives the dictionary back, "
                      "the object read from <t>.win is called t, inconsistent dictionaries are not read back, what was read is a fixed point. Every file / "
                      "behaviour is executed on the real class with real files. (c) function tables with their laws (str2bool word lists; alpha_A/beta_A = "
                      "Levi-Civita for cross product and axial vector; iterate_nd/iterate3dpm: every point of the box exactly once, pm symmetric; one2three "
@@ -62,9 +63,10 @@ ND_INV = ["TypeOK", "Ham", "Promises", "Internal", "Minimal", "FilesCover", "Fil
 UT_INV = ["BoolWords", "TablesCyclic", "CrossIsLeviCivita", "AxialIsLeviCivita", "IterOnce", "IterLex", "IterPm", "Iter3", "OneToThree", "HeadLabels",
           "Degen", "ArrTable"]
 WR_INV = ["InModel", "ReadDefined", "StyleInvariant", "ParamsRead", "CellUnits", "AtomsFrac", "KptsMesh", "Projections", "SeednameIsFile"]
-WO_INV = ["TypeOK", "GetSet", "DelRemoves", "UpdateLaw", "FileWellFormed", "RoundTrip", "MpGridDerived", "SeednameFollowsFile", "InconsistentRejected",
+WO_INV = ["TypeOK", "GetSet", "DelRemoves", "UpdateLaw", "NpzKeeps", "FileWellFormed", "RoundTrip", "MpGridDerived", "SeednameFollowsFile", "InconsistentRejected",
           "FileFixpoint"]
 POOL = ["nw3", "froz", "spin0", "plot", "x", "excl", "projnone", "proj1", "kmesh", "mp112", "cell2", "winmax_none", "bulk"]
+POOL_DEEP = ["nw3", "froz", "plot", "projnone", "proj1", "kmesh", "mp112", "cell2", "winmax_none"]      # thorough: fewer entries, one action more
 INFO_PREFIX = "info_"
 
 
@@ -126,6 +128,25 @@ def check(pid, tier):
             except Exception:
                 pass
         raise
+    finally:
+        tidy(f"{pid.lower()}_{tier}_{os.getpid()}", keep_out=bool(rep.violations))
+
+
+def tidy(tag, keep_out):
+    """scratch of this process (every name carries the tag): the work directory, the record files and the TLC directories of the
+    record / must-fail runs always go; of the four models the tlc.out stays when violations were reported"""
+    import glob
+    shutil.rmtree(os.path.join(WORK, tag), ignore_errors=True)
+    for d in glob.glob(os.path.join(WORK, "records", f"{tag}_*")) + glob.glob(os.path.join(WORK, "tlc", f"rec_{tag}_*")) + glob.glob(os.path.join(WORK, "tlc", f"{tag}_v_*")):
+        shutil.rmtree(d, ignore_errors=True)
+    for d in glob.glob(os.path.join(WORK, "tlc", f"{tag}_*")):
+        if not keep_out:
+            shutil.rmtree(d, ignore_errors=True)
+            continue
+        for f in os.listdir(d):
+            if f != "tlc.out":
+                p = os.path.join(d, f)
+                shutil.rmtree(p, ignore_errors=True) if os.path.isdir(p) else os.remove(p)
 
 
 def _check(rep, pid, tier):
@@ -178,13 +199,14 @@ def _check(rep, pid, tier):
     nd_c = dict(FFIgnoresKeep="FALSE", SHFilesNoEig="FALSE")
     wr_c = dict(GOOD, StyleSet="many" if thorough else "few", Product="slices")
     wo_c = dict(GOOD, StyleSet="few", Product="slices", MAXLEN=3 if thorough else 2, PRESETS="{1, 2}",
-                POOL="{" + ", ".join(f'"{p}"' for p in (POOL if not thorough else POOL[:9])) + "}")
+                POOL="{" + ", ".join(f'"{p}"' for p in (POOL if not thorough else POOL_DEEP)) + "}")
     small_wo = dict(wo_c, MAXLEN=2)
+    nw = 4 if thorough else 2          # the quick models are small: two workers cost less CPU and no wall time
     jobs = dict(
-        nd=("MC_NeededData.tla", cfg("Spec", nd_c, ND_INV), True, 4),
-        ut=("MC_UtilTables.tla", cfg("Spec", ut_c, UT_INV), True, 4),
-        wr=("MC_WinRead.tla", cfg("Spec", wr_c, WR_INV), True, 4),
-        wo=("MC_WinObj.tla", cfg("OSpec", wo_c, WO_INV), True, 4),
+        nd=("MC_NeededData.tla", cfg("Spec", nd_c, ND_INV), True, nw),
+        ut=("MC_UtilTables.tla", cfg("Spec", ut_c, UT_INV), True, nw),
+        wr=("MC_WinRead.tla", cfg("Spec", wr_c, WR_INV), True, nw),
+        wo=("MC_WinObj.tla", cfg("OSpec", wo_c, WO_INV), True, nw),
         v_nd_ffkeep=("MC_NeededData.tla", cfg("Spec", dict(nd_c, FFIgnoresKeep="TRUE"), ND_INV), False, 2),
         v_nd_shfiles=("MC_NeededData.tla", cfg("Spec", dict(nd_c, SHFilesNoEig="TRUE"), ND_INV), False, 2),
         v_ut_swap=("MC_UtilTables.tla", cfg("Spec", dict(ut_c, SwapAlphaBeta="TRUE", SMAX=1, NHEAD=1, DLEN=2), UT_INV), False, 2),
@@ -271,7 +293,7 @@ def _check(rep, pid, tier):
                                                  got={k: v for k, v in got.items()}, what=text))
         for i_ in info:
             uinfo[i_] = uinfo.get(i_, 0) + 1
-        if ut_done in (1, 700):
+        if ucounts[kl] == 1 and kl in ("iterate_nd:start", "find_degen:values"):
             rep.sample(dict(function=fn, input=inp, result=got["val"] if got["err"] == "" else got["err"]))
     if 2 * ut_done != sts["ut"]["distinct"]:
         raise MachineryError(f"utility dump incomplete: {ut_done} finished states for {sts['ut']['distinct']} TLC states")
@@ -339,7 +361,7 @@ def _check(rep, pid, tier):
         if orp.replay(s):
             okb += 1
     if not rep.violations:
-        for op in ("set", "del", "update", "write_read"):
+        for op in ("set", "del", "update", "npz", "write_read"):
             if not orp.ops.get(op):
                 raise MachineryError(f"WinObj: action never replayed: {op}")
         for need in ("write_read:consistent", "write_read:inconsistent"):
@@ -402,7 +424,7 @@ def _check(rep, pid, tier):
         for kind in ("roundtrip", "read", "write"):
             n = 0
             for j, r in enumerate(win_recs):
-                if r["kind"] == kind and n < 6:
+                if r["kind"] == kind and n < 6 and win_meta[j]["mesh"] == "right" and not win_meta[j]["exception"]:
                     b, clause = WR.corrupt(r)
                     if b is not None:
                         out.append((b, {clause}, j))
@@ -437,8 +459,8 @@ def _check(rep, pid, tier):
         for j, (b, clauses, src) in enumerate(bads):
             got = set(bad.pop(len(recs) + j, []))
             src_bad = set(bad.get(src, [])) if src is not None else set()
-            if clauses <= src_bad:
-                continue                 # TLC rejects the uncorrupted record by the same clause (see the violations): not usable
+            if src_bad - {c_ for c_ in src_bad if c_.startswith(INFO_PREFIX)} - {"seedname_follows_file"}:
+                continue                 # TLC rejects the uncorrupted record itself (see the violations): not usable
             if not (got & (clauses - src_bad)):
                 raise MachineryError(f"binding self-test failed ({name}): corrupted record accepted (expected one of {sorted(clauses)}, TLC says {sorted(got)})")
             caught[j] = sorted(got & clauses)
@@ -511,20 +533,7 @@ def _check(rep, pid, tier):
         rep.part("skipped_private", **{k.replace(".", "_"): v for k, v in skipped.items()})
     rep.part("violation_counts", **{k.replace(".", "_").replace(":", "_"): v for k, v in vio.count.items()})
     rep.part("cpu_seconds", **timing, total=round(sum(timing.values()), 1))
-    shutil.rmtree(wd, ignore_errors=True)
-    if not rep.violations:
-        for n in names:
-            shutil.rmtree(os.path.join(WORK, "tlc", n), ignore_errors=True)
-            for c0 in range(0, 9000, 3000):
-                shutil.rmtree(os.path.join(WORK, "tlc", f"rec_{n}_{c0}"), ignore_errors=True)
-            shutil.rmtree(os.path.join(WORK, "records", n), ignore_errors=True)
-    else:
-        for st in sts.values():          # the dumps are large; tlc.out stays as evidence
-            try:
-                os.remove(st["dump_path"])
-            except (OSError, KeyError, TypeError):
-                pass
-    return rep.finish()
+    return rep.finish()          # scratch is removed by tidy() in check()
 
 
 def win_key(r, clause):
@@ -532,6 +541,8 @@ def win_key(r, clause):
     if r["kind"] == "read":
         if clause == "data" and any(p[0].split(":")[0] in ("upper", "title", "other") for p in r["out"]["data"]):
             return "WIN.from_w90_file:keyword_case"
+        if clause == "status" and r["out"]["err"] == "" and any(l["k"] == "param" and l["name"] == "mp_grid" and l["cs"] != "lower" for l in r["file"]):
+            return "WIN.from_w90_file:keyword_case"          # a contradicting MP_GRID stored under its own spelling, never compared
         return f"WIN.from_w90_file:recorded:{clause}"
     if r["kind"] == "write":
         f = r["out"]["file"]
